@@ -285,3 +285,26 @@ M("hi_X_alias", "the stored iterate aliases the live x (no copy)", ["C18", "C10"
 M("hi_callback_pairs_float32", "callback pairs rounded through float32", ["C18", "C07"],
   ("lbfgsb/main.py", "                            np.atleast_2d(np.diff(np.array(X), axis=0)),\n                            np.atleast_2d(np.diff(np.array(G), axis=0)),\n                        ),\n                    ),\n                ):",
    "                            np.atleast_2d(np.diff(np.array(X), axis=0)).astype(np.float32).astype(float),\n                            np.atleast_2d(np.diff(np.array(G), axis=0)),\n                        ),\n                    ),\n                ):"))
+
+# --- update_fun_def ---------------------------------------------------------------------
+M("ufd_filter_after_stop", "pinned defect: curvature filter after the stop tests (reverse of fix f49fa35)", ["C13"],
+  ("lbfgsb/main.py", "                X, G = make_X_and_G_respect_strong_wolfe(X, G, eps_SY, logger=logger)\n\n                # Check stop criterion: minimum relative change in the\n                # objective function\n                if is_f0_min_change_reached(f0, f0_old, ftol, istate):\n                    break  # the while loop\n\n                # Check stop criterion: minimum objective function value\n                elif is_f0_target_reached(f0 / sf.scaling_factor, _ftarget, istate):\n                    break  # the while loop\n",
+   "                # Check stop criterion: minimum relative change in the\n                # objective function\n                if is_f0_min_change_reached(f0, f0_old, ftol, istate):\n                    break  # the while loop\n\n                # Check stop criterion: minimum objective function value\n                elif is_f0_target_reached(f0 / sf.scaling_factor, _ftarget, istate):\n                    break  # the while loop\n                X, G = make_X_and_G_respect_strong_wolfe(X, G, eps_SY, logger=logger)\n"))
+M("ufd_no_force_rebuild", "pinned defect: matrices not rebuilt after a rewrite when the newest pair is rejected (reverse of fix 62c59b6)", ["C13"],
+  ("lbfgsb/main.py", "                is_force_update=update_fun_def is not None and len(X) > 1,\n", "                is_force_update=False,\n"))
+M("ufd_no_filter", "curvature filter not applied to the rewritten history", ["C13"],
+  ("lbfgsb/main.py", "                X, G = make_X_and_G_respect_strong_wolfe(X, G, eps_SY, logger=logger)\n\n                # Check stop criterion: minimum relative change in the",
+   "                # Check stop criterion: minimum relative change in the"))
+M("ufd_filter_keeps_negative", "filter keeps pairs with s.y <= 0 (tests |s.y|)", ["C13"],
+  ("lbfgsb/bfgsmats.py", "        if not is_update_X_and_G(X[k], G[k], _X[0], _G[0], eps):", "        if not (is_update_X_and_G(X[k], G[k], _X[0], _G[0], eps) or is_update_X_and_G(X[k], -G[k], _X[0], -_G[0], eps)):"))
+M("ufd_after_matrix_update", "update function called after the matrix update of the iteration", ["C13"],
+  ("lbfgsb/main.py", "            else:\n                f0, f0_old, grad, G = update_fun_def(x, f0, f0_old, grad, X, G)\n\n                # We must check",
+   "            else:\n                mats = update_lbfgs_matrices(x.copy(), grad, X, G, maxcor, mats, is_force_update=False, eps=eps_SY)\n                f0, f0_old, grad, G = update_fun_def(x, f0, f0_old, grad, X, G)\n\n                # We must check"))
+M("ufd_returned_G_ignored", "the deque returned by the update function is ignored (old gradients kept)", ["C13"],
+  ("lbfgsb/main.py", "            else:\n                f0, f0_old, grad, G = update_fun_def(x, f0, f0_old, grad, X, G)\n", "            else:\n                f0, f0_old, grad, _ = update_fun_def(x, f0, f0_old, grad, X, G)\n"))
+M("ufd_identity_extra_eval", "with an update function the accepted point is evaluated once more", ["C13"],
+  ("lbfgsb/main.py", "            else:\n                f0, f0_old, grad, G = update_fun_def(x, f0, f0_old, grad, X, G)\n", "            else:\n                sf.update_x(x)\n                f0, grad = sf.fun_and_grad(x)\n                f0, f0_old, grad, G = update_fun_def(x, f0, f0_old, grad, X, G)\n"))
+M("ufd_filter_drops_newest", "filter anchored at the oldest stored point; not a violation (which older points survive is not prescribed)", [],
+  ("lbfgsb/bfgsmats.py", "    _X, _G = Deque([X[-1]]), Deque([G[-1]])\n    for i in range(ncor):\n        k = ncor - i - 1  # start at 1\n        if not is_update_X_and_G(X[k], G[k], _X[0], _G[0], eps):",
+   "    _X, _G = Deque([X[0]]), Deque([G[0]])\n    for i in range(ncor):\n        k = i + 1\n        if not is_update_X_and_G(_X[-1], _G[-1], X[k], G[k], eps) and False or not is_update_X_and_G(X[k], G[k], _X[-1], _G[-1], eps):"),
+  ("lbfgsb/bfgsmats.py", "            _X.appendleft(X[k])\n            _G.appendleft(G[k])\n", "            _X.append(X[k])\n            _G.append(G[k])\n"))
